@@ -2742,6 +2742,11 @@ fn main() { assert_eq!(L1::new("a1a-").count(), 4); assert_eq!(L2::new("abc").co
 lexgen::lexer! { L -> u8; ['a' 'a' 'b'] = 0u8, ['c' 'c'-'e' 'c']+ = 1u8, ['x' 'y' 'x' 'y'] # 'y' = 2u8, }
 fn main() { let v: Vec<_> = L::new("abccdx").map(|r| r.unwrap().1).collect(); assert_eq!(v, vec![0, 0, 1, 2]); }
 """),
+    ("bracket_set_repeating_a_character_as_a_one_character_range", """
+lexgen::lexer! { L -> u8; ['a' 'a'-'a' 'b'] = 0u8, ['0'-'0' '5' '0'-'0']+ = 1u8, ['k'-'k' 'j'-'l' 'k' 'k'-'k'] # 'l' = 2u8,
+    ['x'-'x' 'x'-'x'] ['y'-'y' 'y'] = 3u8, }
+fn main() { let v: Vec<_> = L::new("ab050kjxy").map(|r| r.unwrap().1).collect(); assert_eq!(v, vec![0, 0, 1, 2, 2, 3]); }
+"""),
     ("right_contexts_of_any_shape", """
 lexgen::lexer! { L -> u8;
     'a' > "bc" = 0u8, 'a' > ('b' 'c'* 'd' | "xy") = 1u8, 'a' > ['b'-'d']+ 'e' = 2u8, 'a' > 'z'? $ = 3u8,
@@ -2779,7 +2784,12 @@ def big_family(seed, n, base_id):
         a = rnd.choice([97, 98, 99])
         items = [(a, a), (a, a), (rnd.choice([97, 98, 99, 100]),) * 2, (98, 100)]
         rnd.shuffle(items)
-        rules = [F.simple_rule(cat(set_(items), star(chr_(120)))),
+        cls_ = set_(items)
+        for it in cls_["items"]:
+            # a repeated member may also be written as a one-character range `c-c` (seed S-F46)
+            if it["lo"] == it["hi"] and rnd.random() < 0.4:
+                it["as_range"] = True
+        rules = [F.simple_rule(cat(cls_, star(chr_(120)))),
                  F.simple_rule(plus(bi(rnd.choice(["alphabetic", "numeric", "XID_Continue", "lowercase"])))),
                  F.simple_rule(alt(bi("ascii_digit"), bi("whitespace")))]
         out.append(Program(base_id + 6000 + i, [("Init", rules)], k=2))
